@@ -198,8 +198,8 @@ def check_C09(tier):
 # ---------------------------------------------------------------------------
 # C10: fault enumeration over the position of the failing target call
 # ---------------------------------------------------------------------------
-VAL_FAULTS = ["exception", "nan", "inf", "-inf", "complex", "vector", "none"]
-SPEC_FAULTS = ["exception", "pair_nan", "pair_inf", "not_pair", "triple", "sd_zero", "sd_neg",
+VAL_FAULTS = ["exception", "exception2", "nan", "inf", "-inf", "complex", "vector", "none"]
+SPEC_FAULTS = ["exception", "exception2", "pair_nan", "pair_inf", "not_pair", "triple", "sd_zero", "sd_neg",
                "sd_nan", "sd_inf", "none"]
 
 
